@@ -937,3 +937,333 @@ pub fn operator_trie(cx: &mut Ctx, rule: &str) {
         }
     }
 }
+
+// ================================================================== indentation / newline / queue discipline
+
+fn method_block_text(lx: &Src, name: &str) -> Option<String> {
+    lexer_method(lx, name).map(|m| sm::tsc(&m.block))
+}
+
+/// I1/I3: Indent/Dedent pairing with the indentation stack.
+pub fn indent_pairing(cx: &mut Ctx, rule: &str) {
+    cx.rule(rule, "every indentations.push is immediately followed by one emit(Indent) and every indentations.pop by one emit(Dedent) in the same block; Indent/Dedent are emitted only from handle_indentations (after the `nesting != 0 => return` test) and from the end-of-input flush `while !indentations.is_empty()`; the Indent range is tok_pos - spaces - tabs .. tok_pos and Dedent ranges are empty at the current position; the stack never pops its base level");
+    cx.floor(rule, 7);
+    let Some(lx) = load_lexer(cx, rule) else { return };
+    let mut push_blocks = 0;
+    let mut pop_blocks = 0;
+    for (f, _) in lexer_methods(&lx) {
+        let fname = f.sig.ident.to_string();
+        // walk all blocks; inspect adjacent statement pairs
+        struct BV<'a> {
+            blocks: Vec<&'a syn::Block>,
+        }
+        impl<'a> syn::visit::Visit<'a> for BV<'a> {
+            fn visit_block(&mut self, b: &'a syn::Block) {
+                self.blocks.push(b);
+                syn::visit::visit_block(self, b);
+            }
+        }
+        use syn::visit::Visit;
+        let mut bv = BV { blocks: vec![] };
+        bv.visit_block(&f.block);
+        for b in bv.blocks {
+            let ts: Vec<String> = b.stmts.iter().map(|s| sm::tsc(s)).collect();
+            for (i, t) in ts.iter().enumerate() {
+                let is_push = t.starts_with("self.indentations.push(");
+                let is_pop = t == "self.indentations.pop();";
+                let emits_indent = t.starts_with("self.emit((Tok::Indent,");
+                let emits_dedent = t.starts_with("self.emit((Tok::Dedent,");
+                if is_push {
+                    push_blocks += 1;
+                    let follow: Vec<&String> = ts[i + 1..].iter().take(2).collect();
+                    let ok = follow.iter().any(|x| x.contains("self.emit((Tok::Indent,")) && ts.iter().filter(|x| x.contains("self.emit((Tok::Indent,")).count() == 1;
+                    if ok && fname == "handle_indentations" {
+                        cx.ok(rule, &format!("{}: push followed by emit(Indent)", fname));
+                    } else {
+                        cx.fail(rule, &format!("{}/push/{}", rule, fname), &lx.loc(f), "indentations.push is not followed by exactly one emit(Indent) in handle_indentations");
+                    }
+                }
+                if is_pop {
+                    pop_blocks += 1;
+                    let follow: Vec<&String> = ts[i + 1..].iter().take(2).collect();
+                    let ok = follow.iter().any(|x| x.contains("self.emit((Tok::Dedent,")) && ts.iter().filter(|x| x.contains("self.emit((Tok::Dedent,")).count() == 1;
+                    if ok && (fname == "handle_indentations" || fname == "consume_normal") {
+                        cx.ok(rule, &format!("{}: pop followed by emit(Dedent)", fname));
+                    } else {
+                        cx.fail(rule, &format!("{}/pop/{}", rule, fname), &lx.loc(f), "indentations.pop is not followed by exactly one emit(Dedent)");
+                    }
+                }
+                if emits_indent && !(i > 0 && ts[..i].iter().rev().take(2).any(|x| x.starts_with("self.indentations.push("))) {
+                    cx.fail(rule, &format!("{}/indent-without-push/{}", rule, fname), &lx.loc(f), "emit(Indent) without a preceding indentations.push");
+                }
+                if emits_dedent && !(i > 0 && ts[..i].iter().rev().take(2).any(|x| x == "self.indentations.pop();")) {
+                    cx.fail(rule, &format!("{}/dedent-without-pop/{}", rule, fname), &lx.loc(f), "emit(Dedent) without a preceding indentations.pop");
+                }
+                if emits_indent && !t.contains("TextRange::new(tok_pos-TextSize::new(indentation_level.spaces)-TextSize::new(indentation_level.tabs),tok_pos,)") {
+                    cx.fail(rule, &format!("{}/indent-range", rule), &lx.loc(f), "the Indent range is not tok_pos - spaces - tabs .. tok_pos");
+                }
+                if emits_dedent && !t.contains("TextRange::empty(tok_pos)") {
+                    cx.fail(rule, &format!("{}/dedent-range/{}", rule, fname), &lx.loc(f), "a Dedent range is not TextRange::empty(tok_pos)");
+                }
+            }
+        }
+    }
+    if push_blocks != 1 || pop_blocks != 2 {
+        cx.fail(rule, &format!("{}/counts", rule), &lx.rel, &format!("{} push sites and {} pop sites (1 and 2 expected)", push_blocks, pop_blocks));
+    }
+    // handle_indentations: nesting test first
+    match method_block_text(&lx, "handle_indentations") {
+        Some(t) => {
+            if t.starts_with("{letindentation_level=self.eat_indentation()?;ifself.nesting!=0{returnOk(());}") {
+                cx.ok(rule, "handle_indentations: `if nesting != 0 { return }` precedes every Indent/Dedent");
+            } else {
+                cx.fail(rule, &format!("{}/nesting-first", rule), &lx.rel, "handle_indentations does not test `nesting != 0 => return` before comparing indentation");
+            }
+            // let tok_pos = self.get_pos() precedes each emit
+            if t.matches("lettok_pos=self.get_pos();").count() == 2 {
+                cx.ok(rule, "tok_pos = get_pos() is taken at both emit sites");
+            } else {
+                cx.fail(rule, &format!("{}/tok_pos", rule), &lx.rel, "tok_pos is not get_pos() at the Indent and Dedent emit sites");
+            }
+        }
+        None => cx.anchor_missing(rule, "Lexer::handle_indentations"),
+    }
+    // EOF flush
+    match method_block_text(&lx, "consume_normal") {
+        Some(t) => {
+            if t.contains("while!self.indentations.is_empty(){self.indentations.pop();self.emit((Tok::Dedent,TextRange::empty(tok_pos)));}self.emit((Tok::EndOfFile,TextRange::empty(tok_pos)));") {
+                cx.ok(rule, "end of input: every open level is popped with a Dedent before EndOfFile");
+            } else {
+                cx.fail(rule, &format!("{}/eof-flush", rule), &lx.rel, "the end-of-input branch does not flush `while !indentations.is_empty() { pop; emit(Dedent) }` before EndOfFile");
+            }
+        }
+        None => cx.anchor_missing(rule, "Lexer::consume_normal"),
+    }
+    // Indentations invariants
+    let t = sm::tsc(&lx.file);
+    let ok = t.contains("fnis_empty(&self)->bool{self.indent_stack.len()==1}")
+        && t.contains("fnpop(&mutself)->Option<IndentationLevel>{ifself.is_empty(){returnNone;}self.indent_stack.pop()}")
+        && t.contains("indent_stack:vec![IndentationLevel::default()]");
+    if ok {
+        cx.ok(rule, "Indentations: starts with one level, pop() refuses to remove it, is_empty() = (len == 1)");
+    } else {
+        cx.fail(rule, &format!("{}/stack-invariant", rule), &lx.rel, "the Indentations stack does not keep its base level (Default with one level; pop returns None at len 1)");
+    }
+    // the stack is touched only through its methods
+    let n = t.matches(".indent_stack").count();
+    if n == 4 {
+        cx.ok(rule, "indent_stack is accessed only inside Indentations' own methods");
+    } else {
+        cx.fail(rule, &format!("{}/stack-access", rule), &lx.rel, &format!("{} accesses to indent_stack (4 expected: is_empty, push, pop, current)", n));
+    }
+}
+
+/// I2: Newline only outside brackets.
+pub fn newline_guards(cx: &mut Ctx, rule: &str) {
+    cx.rule(rule, "Newline is emitted only under nesting == 0: in the line-break arm inside `if self.nesting == 0`, and at end of input after the `nesting > 0 => Err(Eof)` return and only when the last line was not terminated");
+    cx.floor(rule, 2);
+    let Some(lx) = load_lexer(cx, rule) else { return };
+    let Some((_, m)) = consume_character_arms(&lx) else { return cx.anchor_missing(rule, "consume_character") };
+    let mut n_emit = 0;
+    for arm in &m.arms {
+        let (_chars, res) = interp_arm(arm);
+        for e in &res.emits {
+            if e.tok == "Newline" {
+                n_emit += 1;
+                if e.nesting_guard.as_deref() == Some("nesting==0") && e.s_ok && e.e_ok && e.spelled.chars().count() == 1 {
+                    cx.ok(rule, "line-break arm: one next_char (folds CR LF), Newline emitted under nesting == 0 with start/end around it");
+                } else {
+                    cx.fail(rule, &format!("{}/line-break-arm", rule), &format!("{}:{}", lx.rel, e.line), &format!("Newline emitted with guard {:?}, start ok {}, end ok {}, {} characters consumed", e.nesting_guard, e.s_ok, e.e_ok, e.spelled.chars().count()));
+                }
+            }
+        }
+    }
+    if n_emit != 1 {
+        cx.fail(rule, &format!("{}/line-break-arm/count", rule), &lx.rel, &format!("{} Newline emits in consume_character (1 expected)", n_emit));
+    }
+    match method_block_text(&lx, "consume_normal") {
+        Some(t) => {
+            let p_err = t.find("ifself.nesting>0{returnErr(LexicalError{error:LexicalErrorType::Eof,location:tok_pos,});}");
+            let p_nl = t.find("if!self.at_begin_of_line{self.at_begin_of_line=true;self.emit((Tok::Newline,TextRange::empty(tok_pos)));}");
+            match (p_err, p_nl) {
+                (Some(a), Some(b)) if a < b => cx.ok(rule, "end of input: Err(Eof) while brackets are open comes first; the closing Newline is empty and only added to an unterminated line"),
+                _ => cx.fail(rule, &format!("{}/eof", rule), &lx.rel, "end-of-input branch does not return Err(Eof) for open brackets before emitting the final Newline"),
+            }
+            if t.matches("Tok::Newline").count() != 1 {
+                cx.fail(rule, &format!("{}/eof/count", rule), &lx.rel, "more than one Newline emit in consume_normal");
+            }
+        }
+        None => cx.anchor_missing(rule, "Lexer::consume_normal"),
+    }
+    // no other Newline emit anywhere
+    let total = sm::tsc(&lx.file).matches("self.emit((Tok::Newline,").count();
+    if total != 2 {
+        cx.fail(rule, &format!("{}/sites", rule), &lx.rel, &format!("{} Newline emit sites in the lexer (2 expected)", total));
+    }
+}
+
+/// S1: skip set — which consumption produces no token.
+pub fn skip_set(cx: &mut Ctx, rule: &str) {
+    cx.rule(rule, "the only characters consumed without producing a token (default configuration) are space/tab/form feed, comment text up to the line break, backslash + line break, line breaks inside brackets and of blank/comment-only lines, and a leading BOM; every other consuming path of consume_character ends in an emit or an Err, and every lex_* result is emitted");
+    cx.floor(rule, 20);
+    let Some(lx) = load_lexer(cx, rule) else { return };
+    let Some((_, m)) = consume_character_arms(&lx) else { return cx.anchor_missing(rule, "consume_character") };
+    let allowed_silent: BTreeSet<&str> = [" |\\t|\\u{c}", "\\\\", "\\n|\\r"].into_iter().collect();
+    for arm in &m.arms {
+        let (chars, res) = interp_arm(arm);
+        let arm_name: String = if chars.is_empty() { sm::tsc(&arm.pat) } else { chars.iter().map(|c| c.escape_default().to_string()).collect::<Vec<_>>().join("|") };
+        let body = sm::tsc(&arm.body);
+        // opaque lex_* calls must be emitted (or be the comment helper)
+        for oc in &res.opaque_calls {
+            if oc.contains("lex_and_emit_comment") {
+                if arm_name == "#" {
+                    cx.ok(rule, "`#` arm: comment text is skipped (emitted as a token only under full-lexer)");
+                } else {
+                    cx.fail(rule, &format!("{}/comment-in/{}", rule, arm_name), &lx.loc(&arm.pat), "comment lexing from a non-`#` arm");
+                }
+                continue;
+            }
+            // let X = self.lex_y()?; self.emit(X);
+            let name = oc.trim_start_matches("self.").split('(').next().unwrap_or("").to_string();
+            let re_ok = body.contains(&format!("=self.{}(", name)) && {
+                // find variable
+                let var = body.split(&format!("=self.{}(", name)).next().and_then(|p| p.rsplit("let").next()).unwrap_or("").to_string();
+                !var.is_empty() && body.contains(&format!("self.emit({});", var))
+            };
+            if re_ok {
+                cx.ok(rule, &format!("arm `{}`: result of {} is emitted", arm_name, name));
+            } else {
+                cx.fail(rule, &format!("{}/unemitted/{}/{}", rule, arm_name, name), &lx.loc(&arm.pat), &format!("the token produced by {} in arm `{}` is not emitted", name, arm_name));
+            }
+        }
+        if res.silent_paths.is_empty() {
+            if res.opaque_calls.is_empty() {
+                cx.ok(rule, &format!("arm `{}`: every path ends in an emit or an Err", arm_name));
+            }
+            continue;
+        }
+        if allowed_silent.contains(arm_name.as_str()) {
+            // the silent path must consume only the arm's own class of characters
+            let detail = match arm_name.as_str() {
+                "\\\\" => res.silent_paths.iter().all(|(sp, k)| *k == 2 && sp.starts_with('\\')) && res.errors.iter().any(|(e, _)| e == "LineContinuationError"),
+                "\\n|\\r" => res.silent_paths.iter().all(|(_, k)| *k == 1),
+                _ => res.silent_paths.iter().all(|(sp, _)| sp.ends_with('*')),
+            };
+            if detail {
+                cx.ok(rule, &format!("arm `{}`: layout consumed without a token", arm_name));
+            } else {
+                cx.fail(rule, &format!("{}/layout-arm/{}", rule, arm_name), &lx.loc(&arm.pat), &format!("layout arm `{}` consumes more than its own layout characters: {:?}", arm_name, res.silent_paths));
+            }
+        } else {
+            for (sp, k) in &res.silent_paths {
+                cx.fail(rule, &format!("{}/silent/{}", rule, arm_name), &lx.loc(&arm.pat), &format!("arm `{}` has a path that consumes {} character(s) (`{}`) and produces neither a token nor an error: text would silently disappear from the token stream", arm_name, k, sp));
+            }
+        }
+    }
+    // eat_indentation arms
+    match lexer_method(&lx, "eat_indentation") {
+        None => cx.anchor_missing(rule, "Lexer::eat_indentation"),
+        Some(f) => {
+            let mut arms: Vec<String> = vec![];
+            sm::for_each_expr_in_block(&f.block, |e| {
+                if let syn::Expr::Match(m) = e {
+                    if sm::tsc(&m.expr) == "self.window[0]" && arms.is_empty() {
+                        arms = m.arms.iter().map(|a| sm::tsc(&a.pat)).collect();
+                    }
+                }
+            });
+            let want = vec!["Some(' ')", "Some('\\t')", "Some('#')", "Some('\\x0C')", "Some('\\n'|'\\r')", "None", "_"];
+            if arms == want {
+                cx.ok(rule, "eat_indentation consumes exactly space, tab, comment, form feed and blank-line breaks");
+            } else {
+                cx.fail(rule, &format!("{}/eat_indentation/arms", rule), &lx.loc(f), &format!("eat_indentation arms are {:?}", arms));
+            }
+        }
+    }
+}
+
+/// Q1: pending queue is FIFO.
+pub fn pending_fifo(cx: &mut Ctx, rule: &str) {
+    cx.rule(rule, "the pending token queue is FIFO: emit() is the only writer and appends at the back; inner_next is the only reader, removes at the front and loops until something is pending");
+    cx.floor(rule, 3);
+    let Some(lx) = load_lexer(cx, rule) else { return };
+    match method_block_text(&lx, "emit") {
+        Some(t) if t == "{self.pending.push(spanned);}" => cx.ok(rule, "emit = pending.push(spanned)"),
+        Some(t) => cx.fail(rule, &format!("{}/emit", rule), &lx.rel, &format!("emit is `{}`", t)),
+        None => cx.anchor_missing(rule, "Lexer::emit"),
+    }
+    match method_block_text(&lx, "inner_next") {
+        Some(t) => {
+            if t == "{whileself.pending.is_empty(){ifself.at_begin_of_line{self.handle_indentations()?;}self.consume_normal()?;}Ok(self.pending.remove(0))}" {
+                cx.ok(rule, "inner_next: while pending.is_empty() { indentation; consume_normal }; Ok(pending.remove(0))");
+            } else {
+                cx.fail(rule, &format!("{}/inner_next", rule), &lx.rel, "inner_next is not `while pending.is_empty() { [handle_indentations]; consume_normal }; Ok(pending.remove(0))`");
+            }
+        }
+        None => cx.anchor_missing(rule, "Lexer::inner_next"),
+    }
+    let all = sm::tsc(&lx.file);
+    let n = all.matches(".pending").count();
+    // new(): `pending: Vec::with_capacity(5)` is a field init (no dot); uses: push, is_empty, remove
+    if n == 3 {
+        cx.ok(rule, "pending is touched by emit (push) and inner_next (is_empty, remove(0)) only");
+    } else {
+        cx.fail(rule, &format!("{}/access", rule), &lx.rel, &format!("{} accesses to `.pending` (3 expected)", n));
+    }
+}
+
+/// W1: indentation counters are reset by every non-indentation arm (sibling agreement).
+pub fn indentation_counters(cx: &mut Ctx, rule: &str) {
+    cx.rule(rule, "in eat_indentation each of `spaces`/`tabs` is incremented exactly once, right after one next_char() of its own 1-byte character, and every other consuming arm and the end-of-input arm reset both counters to 0 (blank lines, comment-only lines, form feeds and trailing blanks never count as indentation); the tab arm rejects a tab after spaces");
+    cx.floor(rule, 6);
+    let Some(lx) = load_lexer(cx, rule) else { return };
+    let Some(f) = lexer_method(&lx, "eat_indentation") else { return cx.anchor_missing(rule, "Lexer::eat_indentation") };
+    let mut mm: Option<&syn::ExprMatch> = None;
+    sm::for_each_expr_in_block(&f.block, |e| {
+        if let syn::Expr::Match(m) = e {
+            if sm::tsc(&m.expr) == "self.window[0]" && mm.is_none() {
+                mm = Some(m);
+            }
+        }
+    });
+    let Some(m) = mm else { return cx.fail(rule, &format!("{}/shape", rule), &lx.loc(f), "no match on window[0]") };
+    for arm in &m.arms {
+        let pat = sm::tsc(&arm.pat);
+        // drop cfg(full-lexer) statements for the default-configuration reading
+        let stmts: Vec<String> = match &*arm.body {
+            syn::Expr::Block(b) => b
+                .block
+                .stmts
+                .iter()
+                .filter(|s| match s {
+                    syn::Stmt::Local(l) => !sm::cfg_features(&l.attrs).iter().any(|(n, p)| n == "full-lexer" && *p),
+                    syn::Stmt::Expr(syn::Expr::MethodCall(mc), _) => !sm::cfg_features(&mc.attrs).iter().any(|(n, p)| n == "full-lexer" && *p),
+                    _ => true,
+                })
+                .map(|s| sm::tsc(s))
+                .collect(),
+            other => vec![sm::tsc(other)],
+        };
+        let key = format!("{}/{}", rule, pat);
+        let ok = match pat.as_str() {
+            "Some(' ')" => stmts == ["self.next_char();", "spaces+=1;"],
+            "Some('\\t')" => stmts.len() == 3 && stmts[0].starts_with("ifspaces!=0{returnErr(LexicalError{error:LexicalErrorType::TabsAfterSpaces,") && stmts[1] == "self.next_char();" && stmts[2] == "tabs+=1;",
+            "Some('#')" => stmts == ["self.lex_and_emit_comment()?;", "spaces=0;", "tabs=0;"],
+            "Some('\\x0C')" | "Some('\\n'|'\\r')" => stmts == ["self.next_char();", "spaces=0;", "tabs=0;"],
+            "None" => stmts == ["spaces=0;", "tabs=0;", "break;"],
+            "_" => stmts == ["self.at_begin_of_line=false;", "break;"],
+            _ => false,
+        };
+        if ok {
+            cx.ok(rule, &format!("arm {}: {}", pat, stmts.join(" ")));
+        } else {
+            cx.fail(rule, &key, &lx.loc(&arm.pat), &format!("arm {} is `{}`: counters are not (incremented once per consumed indentation character | reset to 0) as in the sibling arms", pat, stmts.join(" ")));
+        }
+    }
+    let t = sm::tsc(&f.block);
+    if t.starts_with("{letmutspaces:u32=0;letmuttabs:u32=0;loop{") && t.ends_with("Ok(IndentationLevel{tabs,spaces})}") {
+        cx.ok(rule, "counters start at 0 and are returned as IndentationLevel { tabs, spaces }");
+    } else {
+        cx.fail(rule, &format!("{}/frame", rule), &lx.loc(f), "eat_indentation does not start both counters at 0 and return IndentationLevel { tabs, spaces }");
+    }
+}
